@@ -316,8 +316,8 @@ Proof.
     repeat split; auto.
 Qed.
 
-Lemma out_phase_invP c x s : InvP s -> e_alive (cn s x) = true -> killed s = false ->
-  InvP (fst (out_phase c x s)).
+Lemma out_phase_invP c x b s : InvP s -> e_alive (cn s x) = true -> killed s = false ->
+  InvP (fst (out_phase c x b s)).
 Proof.
   intros H Ha Hk. openP H. unfold out_phase, cn in *.
   destruct (a_loop _ _ _ _) as [cl L]. destruct cl.
@@ -328,8 +328,8 @@ Proof.
       try (rewrite PAt in * by assumption); try (rewrite PAf in * by assumption); try lia.
 Qed.
 
-Lemma out_phase_frame c x s : e_alive (cn s x) = true ->
-  let s1 := fst (out_phase c x s) in
+Lemma out_phase_frame c x b s : e_alive (cn s x) = true ->
+  let s1 := fst (out_phase c x b s) in
   e_alive (cn s1 x) = true /\ killed s1 = killed s /\ per s1 = per s /\
   e_per (cn s1 x) = e_per (cn s x) /\ cn s1 (negb x) = cn s (negb x) /\
   glo s1 (negb x) = glo s (negb x) /\ hn s1 (negb x) = hn s (negb x) /\ gl s1 (negb x) = gl s (negb x) /\
@@ -362,43 +362,74 @@ Proof.
     try (intuition congruence).
 Qed.
 
-Lemma conn_loop_invP c x : forall fuel s, InvP s -> e_alive (cn s x) = true -> InvP (conn_loop fuel c x s).
+(* a generic induction over one poll of the Connection task *)
+Lemma conn_loop_gen (P : st -> Prop) c x :
+  (forall s nfy, P s -> e_alive (cn s x) = true -> P (close x nfy s)) ->
+  (forall s b, P s -> e_alive (cn s x) = true -> killed s = false ->
+               match out_phase c x b s with (s1, true) => P (close x true s1) | (s1, false) => P s1 end) ->
+  (forall s, P s -> e_alive (cn s x) = true -> can_reserve c x s = false -> P (set_res x false true s)) ->
+  (forall s, P s -> e_alive (cn s x) = true -> can_reserve c x s = true -> P (set_res x true false s)) ->
+  (forall s n rest, P s -> e_alive (cn s x) = true -> e_res (cn s x) = true -> e_rwait (cn s x) = false ->
+      killed s = false -> carrier (glo s (negb x)) = n :: rest -> n_len n <= c_max (ecf c x) ->
+      P (push_nq x n (slo s (negb x) (mkL (wgate (glo s (negb x))) (rgate (glo s (negb x))) rest)))) ->
+  forall fuel b s, P s -> e_alive (cn s x) = true -> P (conn_loop fuel c x b s).
 Proof.
-  induction fuel as [|fuel IH]; intros s H Ha; cbn [conn_loop]; [exact H|].
-  fold (cn s x). destruct (e_shut (cn s x)); [apply close_invP; exact H|].
-  destruct (killed s) eqn:Ek; [apply close_invP; exact H|].
-  pose proof (out_phase_invP c x s H Ha Ek) as H1.
-  pose proof (out_phase_frame c x s Ha) as F. cbn zeta in F.
-  destruct (out_phase c x s) as [s1 refused]. cbn [fst] in *.
+  intros Hclose Hout Hres0 Hres1 Hread.
+  induction fuel as [|fuel IH]; intros b s H Ha; cbn [conn_loop]; [exact H|].
+  fold (cn s x). destruct (e_shut (cn s x) && (0 <? b)); [apply Hclose; assumption|].
+  destruct (killed s) eqn:Ek; [apply Hclose; assumption|].
+  pose proof (Hout s b H Ha Ek) as H1.
+  pose proof (out_phase_frame c x b s Ha) as F. cbn zeta in F.
+  destruct (out_phase c x b s) as [s1 refused]. cbn [fst] in *.
   destruct F as (Fa & Fk & Fp & _).
-  destruct refused; [apply close_invP; exact H1|].
-  assert (HR : forall r w, InvP (set_res x r w s1)).
-  { intros r w. openP H1. unfold set_res, cn in *.
-    constructor; intros; try destruct z; destruct x; cbn in *; auto; try discriminate; try congruence. }
-  destruct (can_reserve c x s1); cbn [negb]; [|apply HR].
-  pose proof (HR true false) as H2.
-  assert (Fa2 : e_alive (cn (set_res x true false s1) x) = true).
-  { unfold set_res, cn in *. destruct x; cbn in *; exact Fa. }
-  assert (Fk2 : killed (set_res x true false s1) = false).
-  { unfold set_res. destruct x; cbn; congruence. }
-  set (s2 := set_res x true false s1) in *.
-  destruct (rgate (glo s2 (negb x))); cbn [negb]; [|exact H2].
+  destruct refused; [exact H1|].
+  set (b1 := b - (qlen s x - qlen s1 x)).
+  (* poll_reserve *)
+  assert (R : exists s2 go b2, reserve_phase c x b1 s1 = (s2, go, b2) /\ P s2 /\ e_alive (cn s2 x) = true /\
+                               killed s2 = false /\
+                               (go = true -> e_res (cn s2 x) = true /\ e_rwait (cn s2 x) = false)).
+  { unfold reserve_phase. fold (cn s1 x).
+    destruct (e_res (cn s1 x) && negb (e_rwait (cn s1 x))) eqn:E1.
+    - exists s1, true, b1. apply andb_true_iff in E1. destruct E1 as [A B]. apply negb_true_iff in B.
+      repeat split; auto; congruence.
+    - destruct (can_reserve c x s1) eqn:Ecr; destruct (0 <? b1).
+      + exists (set_res x true false s1), true, (b1 - 1). split; [reflexivity|]. split; [apply Hres1; assumption|].
+        unfold set_res, cn in *. destruct x; cbn in *; repeat split; auto; congruence.
+      + exists s1, false, b1. repeat split; auto; try congruence; discriminate.
+      + exists (set_res x false true s1), false, b1. split; [reflexivity|]. split; [apply Hres0; assumption|].
+        unfold set_res, cn in *. destruct x; cbn in *; repeat split; auto; try congruence; discriminate.
+      + exists s1, false, b1. repeat split; auto; try congruence; discriminate. }
+  destruct R as (s2 & go & b2 & ER & H2 & Fa2 & Fk2 & Fgo). rewrite ER.
+  destruct go; cbn [negb]; [|exact H2]. destruct (Fgo eq_refl) as [Fr2 Fw2].
+  destruct (rgate (glo s2 (negb x))) eqn:Erg; cbn [negb]; [|exact H2].
   destruct (carrier (glo s2 (negb x))) as [|n rest] eqn:Ec.
-  - destruct (wclosed s2 (negb x)); [apply close_invP|]; exact H2.
-  - destruct (c_max (ecf c x) <? n_len n); [apply close_invP; exact H2|].
+  - destruct (wclosed s2 (negb x)); [apply Hclose; assumption|exact H2].
+  - destruct (c_max (ecf c x) <? n_len n) eqn:Emx; [apply Hclose; assumption|].
     apply IH.
-    + openP H2. unfold push_nq, slo, cn in *.
-      constructor; intros; try destruct z; destruct x; unfold cn in *; cbn in *; auto; try discriminate;
-        try congruence;
-        match goal with
-        | Hlt : _ < _ |- _ =>
-            first [ specialize (PUt Hlt); rewrite Ec in PUt; discriminate
-                  | specialize (PUf Hlt); rewrite Ec in PUf; discriminate ]
-        end.
+    + replace (mkL (wgate (glo s2 (negb x))) true rest)
+        with (mkL (wgate (glo s2 (negb x))) (rgate (glo s2 (negb x))) rest) by (now rewrite Erg).
+      apply Hread; try assumption. lia.
     + unfold push_nq, slo, cn in *. destruct x; cbn in *; exact Fa2.
 Qed.
 
-Lemma conn_poll_invP c x s : InvP s -> InvP (conn_poll c x s).
+Lemma set_res_invP x r w s : InvP s -> e_alive (cn s x) = true -> InvP (set_res x r w s).
+Proof.
+  intros H Ha. openP H. unfold set_res, cn in *.
+  constructor; intros; try destruct z; destruct x; cbn in *; auto; try discriminate; try congruence.
+Qed.
+
+Lemma conn_loop_invP c x : forall fuel b s, InvP s -> e_alive (cn s x) = true -> InvP (conn_loop fuel c x b s).
+Proof.
+  apply (conn_loop_gen InvP).
+  - intros. apply close_invP; assumption.
+  - intros s b H Ha Hk. pose proof (out_phase_invP c x b s H Ha Hk) as Q.
+    destruct (out_phase c x b s) as [s1 [|]]; cbn [fst] in Q; [apply close_invP|]; exact Q.
+  - intros. apply set_res_invP; assumption.
+  - intros. apply set_res_invP; assumption.
+  - intros s n rest H Ha _ _ _ Ec _. apply read_invP; assumption.
+Qed.
+
+Lemma conn_poll_invP c x b s : InvP s -> InvP (conn_poll c x b s).
 Proof.
   intros H. unfold conn_poll. fold (cn s x). destruct (e_alive (cn s x)) eqn:Ea; [|exact H].
   apply conn_loop_invP; assumption.
@@ -417,16 +448,15 @@ Proof.
     assert (G : forall g, InvP (hand_over x (len q <? len (e_nq (eh (gep s x))))
                                   (set_hnd x (mkH (e_ws (eh (gep s x))) q [] (e_peers (eh (gep s x)))
                                                   (e_clog (eh (gep s x))) (e_cmds (eh (gep s x)))) g s))).
-    { intros g. unfold hand_over. destruct (len q <? _); cbn [andb].
-      - destruct (e_rwait (ec (gep (set_hnd x _ g s) x))) eqn:Ew.
-        + openP H. unfold set_res, set_hnd, cn in *.
-          destruct x; cbn in *; constructor; intros; try destruct z; cbn in *; auto; try discriminate;
-            try congruence; repeat split; auto;
-            match goal with Hd : _ = false |- _ =>
-              first [ destruct (PDt Hd) as (_ & _ & _ & _ & _ & Q); congruence
-                    | destruct (PDf Hd) as (_ & _ & _ & _ & _ & Q); congruence ] end.
-        + openP H. unfold set_hnd, cn in *. brute.
-      - openP H. unfold set_hnd, cn in *. brute. }
+    { intros g. unfold hand_over.
+      destruct (_ && _ && _) eqn:Eho; [|openP H; unfold set_hnd, cn in *; brute].
+      apply andb_true_iff in Eho. destruct Eho as [Eho _]. apply andb_true_iff in Eho. destruct Eho as [_ Ew].
+      openP H. unfold set_res, set_hnd, cn in *.
+      destruct x; cbn in *; constructor; intros; try destruct z; cbn in *; auto; try discriminate;
+        try congruence; repeat split; auto;
+        match goal with Hd : _ = false |- _ =>
+          first [ destruct (PDt Hd) as (_ & _ & _ & _ & _ & Q); congruence
+                | destruct (PDf Hd) as (_ & _ & _ & _ & _ & Q); congruence ] end. }
     destruct r; cbn [fst]; apply G.
   - cbn [fst]. openP H. unfold set_hnd in *. brute.
   - cbn [fst]. openP H. unfold set_hnd in *. brute.
@@ -1183,8 +1213,8 @@ Proof.
     rewrite close_dview_y. apply vclose_y_inv; [apply H|]. destruct z; exact Ha.
 Qed.
 
-Lemma out_phase_dview_y c z s : e_alive (cn s z) = true ->
-  dview (fst (out_phase c z s)) (negb z) = dview s (negb z).
+Lemma out_phase_dview_y c z b s : e_alive (cn s z) = true ->
+  dview (fst (out_phase c z b s)) (negb z) = dview s (negb z).
 Proof.
   intros Ha. unfold out_phase, cn in *. destruct (a_loop _ _ _ _) as [cl L]. destruct cl.
   - destruct z; cbn in *; unfold dview, cn, hn, gl; cbn; rewrite Ha; reflexivity.
@@ -1192,14 +1222,15 @@ Proof.
     destruct z; cbn in *; unfold dview, cn, hn, gl; cbn; rewrite Ha; reflexivity.
 Qed.
 
-Lemma out_phase_invD_x c z s : InvD s z -> e_alive (cn s z) = true -> killed s = false ->
-  match out_phase c z s with
+Lemma out_phase_invD_x c z b s : InvD s z -> e_alive (cn s z) = true -> killed s = false ->
+  match out_phase c z b s with
   | (s1, true) => InvD (close z true s1) z
   | (s1, false) => InvD s1 z
   end.
 Proof.
   intros H Ha Hk. unfold InvD in *.
-  set (fuel := S (opt_len (e_cur (ec (gep s z))) + length (e_sq (ec (gep s z))) + length (e_aq (ec (gep s z))))).
+  set (fuel := (opt_len (e_cur (ec (gep s z))) +
+                N.to_nat (N.min b (len (e_sq (ec (gep s z))) + len (e_aq (ec (gep s z))) + 1)))%nat).
   set (mx := c_max (ecf c z)). set (wg := wgate (glo s z)).
   pose proof (fun ws' => vout_inv (dview s z) fuel mx wg (e_hints (ec (gep s z))) (bad s) ws' H Hk Ha) as V.
   unfold out_phase. fold fuel mx wg.
@@ -1235,64 +1266,49 @@ Lemma read_dview_x z n rest wg rg s :
   dview (push_nq z n (slo s (negb z) (mkL wg rg rest))) z = dview s z.
 Proof. destruct z; reflexivity. Qed.
 
-Lemma conn_loop_invD c z : forall fuel s,
-  InvP s -> (forall x, InvD s x) -> e_alive (cn s z) = true -> forall x, InvD (conn_loop fuel c z s) x.
+Lemma conn_loop_invD c z : forall fuel b s,
+  InvP s /\ (forall x, InvD s x) -> e_alive (cn s z) = true ->
+  InvP (conn_loop fuel c z b s) /\ forall x, InvD (conn_loop fuel c z b s) x.
 Proof.
-  induction fuel as [|fuel IH]; intros s HP H Ha; cbn [conn_loop]; [exact H|].
-  fold (cn s z). destruct (e_shut (cn s z)); [apply close_invD; assumption|].
-  destruct (killed s) eqn:Ek; [apply close_invD; assumption|].
-  pose proof (out_phase_invD_x c z s (H z) Ha Ek) as Hx.
-  pose proof (out_phase_dview_y c z s Ha) as Hy.
-  pose proof (out_phase_frame c z s Ha) as F. cbn zeta in F.
-  pose proof (out_phase_invP c z s HP Ha Ek) as HP1.
-  destruct (out_phase c z s) as [s1 refused]. cbn [fst] in *.
-  destruct F as (Fa & Fk & Fp & _).
-  assert (H1y : InvD s1 (negb z)) by (unfold InvD; rewrite Hy; apply H).
-  destruct refused.
-  - (* the sender side closes; the other direction sees its receiver close *)
+  apply (conn_loop_gen (fun s => InvP s /\ forall x, InvD s x)).
+  - intros s nfy [HP H] Ha. split; [apply close_invP; exact HP|apply close_invD; assumption].
+  - intros s b [HP H] Ha Hk.
+    pose proof (out_phase_invD_x c z b s (H z) Ha Hk) as Hx.
+    pose proof (out_phase_dview_y c z b s Ha) as Hy.
+    pose proof (out_phase_frame c z b s Ha) as F. cbn zeta in F.
+    pose proof (out_phase_invP c z b s HP Ha Hk) as HP1.
+    destruct (out_phase c z b s) as [s1 refused]. cbn [fst] in *.
+    destruct F as (Fa & _).
+    assert (H1y : InvD s1 (negb z)) by (unfold InvD; rewrite Hy; apply H).
+    destruct refused.
+    + split; [apply close_invP; exact HP1|]. intros x. unfold InvD. destruct (Bool.eqb x z) eqn:E.
+      * apply eqb_prop in E. subst x. exact Hx.
+      * assert (x = negb z) by (destruct x, z; cbn in E; try discriminate; reflexivity). subst x.
+        rewrite close_dview_y. apply vclose_y_inv; [exact H1y|]. destruct z; exact Fa.
+    + split; [exact HP1|]. intros x. destruct (Bool.eqb x z) eqn:E.
+      * apply eqb_prop in E. subst x. exact Hx.
+      * assert (x = negb z) by (destruct x, z; cbn in E; try discriminate; reflexivity). subst x. exact H1y.
+  - intros s [HP H] Ha _. split; [apply set_res_invP; assumption|]. intros x. unfold InvD. rewrite set_res_dview. apply H.
+  - intros s [HP H] Ha _. split; [apply set_res_invP; assumption|]. intros x. unfold InvD. rewrite set_res_dview. apply H.
+  - intros s n rest [HP H] Ha _ _ _ Ec _. split; [apply read_invP; assumption|].
     intros x. unfold InvD. destruct (Bool.eqb x z) eqn:E.
-    + apply eqb_prop in E. subst x. exact Hx.
+    + apply eqb_prop in E. subst x. rewrite read_dview_x. apply H.
     + assert (x = negb z) by (destruct x, z; cbn in E; try discriminate; reflexivity). subst x.
-      rewrite close_dview_y. apply vclose_y_inv; [exact H1y|]. destruct z; exact Fa.
-  - assert (H1 : forall x, InvD s1 x).
-    { intros x. destruct (Bool.eqb x z) eqn:E.
-      - apply eqb_prop in E. subst x. exact Hx.
-      - assert (x = negb z) by (destruct x, z; cbn in E; try discriminate; reflexivity). subst x. exact H1y. }
-    assert (HR : forall r w x, InvD (set_res z r w s1) x).
-    { intros r w x. unfold InvD. rewrite set_res_dview. apply H1. }
-    destruct (can_reserve c z s1); cbn [negb]; [|apply HR].
-    set (s2 := set_res z true false s1) in *.
-    assert (HP2 : InvP s2).
-    { unfold s2. openP HP1. unfold set_res, cn in *.
-      constructor; intros; try destruct z0; destruct z; unfold cn in *; cbn in *; auto; try discriminate;
-        try congruence. }
-    assert (Fa2 : e_alive (cn s2 z) = true) by (unfold s2, set_res, cn in *; destruct z; cbn in *; exact Fa).
-    assert (Fk2 : killed s2 = false) by (unfold s2, set_res; destruct z; cbn; congruence).
-    destruct (rgate (glo s2 (negb z))); cbn [negb]; [|apply HR].
-    destruct (carrier (glo s2 (negb z))) as [|n rest] eqn:Ec.
-    + destruct (wclosed s2 (negb z)); [apply close_invD; [apply HR|exact Fa2]|apply HR].
-    + destruct (c_max (ecf c z) <? n_len n); [apply close_invD; [apply HR|exact Fa2]|].
-      apply IH.
-      * apply read_invP; [exact HP2|exact Ec].
-      * intros x. unfold InvD. destruct (Bool.eqb x z) eqn:E.
-        -- apply eqb_prop in E. subst x. rewrite read_dview_x. apply HR.
-        -- assert (x = negb z) by (destruct x, z; cbn in E; try discriminate; reflexivity). subst x.
-           rewrite read_dview_y. apply vread_inv; [apply HR| |].
-           ++ destruct z; exact Fa2.
-           ++ destruct z; exact Ec.
-      * unfold push_nq, slo, cn in *. destruct z; cbn in *; exact Fa2.
+      rewrite read_dview_y. apply vread_inv; [apply H| |].
+      * destruct z; exact Ha.
+      * destruct z; exact Ec.
 Qed.
 
-Lemma conn_poll_invD c z s : InvP s -> (forall x, InvD s x) -> forall x, InvD (conn_poll c z s) x.
+Lemma conn_poll_invD c z b s : InvP s -> (forall x, InvD s x) -> forall x, InvD (conn_poll c z b s) x.
 Proof.
   intros HP H. unfold conn_poll. fold (cn s z). destruct (e_alive (cn s z)) eqn:Ea; [|exact H].
-  apply conn_loop_invD; assumption.
+  apply conn_loop_invD; [split; assumption|exact Ea].
 Qed.
 
 Ltac other x z E := assert (x = negb z) by (destruct x, z; cbn in E; try discriminate; reflexivity); subst x.
 
 Lemma hand_over_dview z b s x : dview (hand_over z b s) x = dview s x.
-Proof. unfold hand_over. destruct (b && _); [apply set_res_dview|reflexivity]. Qed.
+Proof. unfold hand_over. destruct (_ && _ && _); [apply set_res_dview|reflexivity]. Qed.
 
 Lemma h_poll_invD c z b s : (forall x, InvD s x) -> forall x, InvD (fst (h_poll c z b s)) x.
 Proof.
